@@ -214,8 +214,181 @@ func readKV(k string) func(st *state.Store) ent {
 		if e == nil {
 			return ent{}
 		}
-		return ent{true, e.CreateIndex, e.ModifyIndex, fmt.Sprintf("%s/%d", e.Value, e.Flags), ""}
+		return ent{true, e.CreateIndex, e.ModifyIndex, fmt.Sprintf("%s/%d", e.Value, e.Flags), fmt.Sprintf("%s#%d", e.Session, e.LockIndex)}
 	}
+}
+
+// kvSession / kvLockIndex split the aux part of a KV ent ("<session>#<LockIndex>").
+func kvSession(e ent) string { return e.aux[:strings.LastIndex(e.aux, "#")] }
+func kvLockIndex(e ent) (n uint64) {
+	fmt.Sscan(e.aux[strings.LastIndex(e.aux, "#")+1:], &n)
+	return
+}
+
+// kvAuxAfterSet: a plain set / cas keeps the lock holder and stores the request's LockIndex (0).
+func kvAuxAfterSet(pre ent) string {
+	if pre.present {
+		return kvSession(pre) + "#0"
+	}
+	return "#0"
+}
+
+func sessionExists(st *state.Store, id string) bool {
+	if id == "" {
+		return false
+	}
+	_, s, err := st.SessionGet(nil, id, nil)
+	must(err)
+	return s != nil
+}
+
+// lockMatched: the documented rule of the lock verb — the session exists and the key is free or
+// already held by that very session.
+func lockMatched(st *state.Store, k, sess string) bool {
+	if !sessionExists(st, sess) {
+		return false
+	}
+	e := readKV(k)(st)
+	return !e.present || kvSession(e) == "" || kvSession(e) == sess
+}
+
+// unlockMatched: the key exists and is held by the named session.
+func unlockMatched(st *state.Store, k, sess string) bool {
+	e := readKV(k)(st)
+	return sess != "" && e.present && kvSession(e) == sess
+}
+
+type lockPre struct {
+	ent
+	matched bool
+}
+
+// lockCond monitors KVSLock / KVSUnlock (direct or as a single-op transaction).
+func lockCond(typ string, unlock bool, k, v string, fl uint64, sess string) *cond {
+	return &cond{typ: typ,
+		pre: func(st *state.Store) any {
+			if unlock {
+				return lockPre{readKV(k)(st), unlockMatched(st, k, sess)}
+			}
+			return lockPre{readKV(k)(st), lockMatched(st, k, sess)}
+		},
+		tags: func(p any) []string {
+			pre := p.(lockPre)
+			holder := "absent"
+			if pre.present {
+				switch kvSession(pre.ent) {
+				case "":
+					holder = "free"
+				case sess:
+					holder = "held-by-requester"
+				default:
+					holder = "held-by-other"
+				}
+			}
+			return []string{fmt.Sprintf("branch:%s:matched=%v,key=%s", typ, pre.matched, holder)}
+		},
+		post: func(p any, st *state.Store, idx uint64, res string, unchanged bool) (string, string) {
+			pre, post := p.(lockPre), readKV(k)(st)
+			reported := reportedOK(res)
+			if !reported && !unchanged {
+				return typ + ":failed-write-changed-state", fmt.Sprintf("res=%s pre=%+v post=%+v", res, pre, post)
+			}
+			if reported && !pre.matched {
+				return typ + ":reported-without-match", fmt.Sprintf("res=%s session=%q pre=%+v", res, sess, pre)
+			}
+			if !reported && pre.matched {
+				return typ + ":matched-but-refused", fmt.Sprintf("res=%s session=%q pre=%+v", res, sess, pre)
+			}
+			if !reported {
+				return "", ""
+			}
+			wantSess, wantLock := sess, uint64(1)
+			if pre.present {
+				wantLock = kvLockIndex(pre.ent)
+				if !unlock && kvSession(pre.ent) != sess {
+					wantLock++
+				}
+			}
+			if unlock {
+				wantSess = ""
+			}
+			wc, wa := fmt.Sprintf("%s/%d", v, fl), fmt.Sprintf("%s#%d", wantSess, wantLock)
+			if !post.present || post.content != wc || post.aux != wa {
+				return typ + ":reported-but-not-written", fmt.Sprintf("want %q %q, pre=%+v post=%+v", wc, wa, pre, post)
+			}
+			wantCreate, wantModify := idx, idx
+			if pre.present {
+				wantCreate = pre.create
+				if pre.content == wc && pre.aux == wa {
+					wantModify = pre.modify
+					run.Tag("write:noop-same-content")
+				}
+			}
+			if post.create != wantCreate || post.modify != wantModify {
+				return typ + ":wrong-indexes-after-write", fmt.Sprintf("want create=%d modify=%d, post=%+v pre=%+v", wantCreate, wantModify, post, pre)
+			}
+			return "", ""
+		}}
+}
+
+// ---------------------------------------------------------------- ACL bootstrap
+
+type bootPre struct {
+	can   bool
+	reset uint64
+	tok   ent
+}
+
+func readBoot(st *state.Store, acc string) bootPre {
+	can, reset, err := st.CanBootstrapACLToken()
+	must(err)
+	if acc == "" {
+		return bootPre{can: can, reset: reset}
+	}
+	return bootPre{can, reset, readTok(acc)(st)}
+}
+
+// bootCond: ACLBootstrap succeeds iff the cluster was never bootstrapped or the supplied reset
+// index is the one CanBootstrapACLToken hands out; a refused bootstrap changes nothing.
+func bootCond(reset uint64, t tokReq) *cond {
+	typ := "aclBootstrap"
+	return &cond{typ: typ,
+		pre: func(st *state.Store) any { return readBoot(st, t.acc) },
+		tags: func(p any) []string {
+			pre := p.(bootPre)
+			return []string{fmt.Sprintf("branch:%s:never=%v,reset-matches=%v", typ, pre.can, reset != 0 && reset == pre.reset)}
+		},
+		post: func(p any, st *state.Store, idx uint64, res string, unchanged bool) (string, string) {
+			pre, post := p.(bootPre), readBoot(st, t.acc)
+			matched := pre.can || (reset != 0 && reset == pre.reset)
+			tokOK := t.sec != "" && t.acc != "" && (!pre.tok.present || strings.HasPrefix(pre.tok.content, t.sec+"/"))
+			applied := res == "nil"
+			if !applied && !unchanged {
+				return typ + ":failed-write-changed-state", fmt.Sprintf("res=%s pre=%+v post=%+v", res, pre, post)
+			}
+			if applied && !matched {
+				return typ + ":reported-without-match", fmt.Sprintf("reset=%d pre=%+v", reset, pre)
+			}
+			if !applied && matched && tokOK {
+				return typ + ":matched-but-refused", fmt.Sprintf("res=%s reset=%d pre=%+v", res, reset, pre)
+			}
+			if !applied && !matched && res != "err:bootstrap-not-allowed" && res != "err:bootstrap-invalid-reset" {
+				return typ + ":unmatched-answered-otherwise", fmt.Sprintf("res=%s reset=%d pre=%+v", res, reset, pre)
+			}
+			if applied {
+				if post.can || post.reset != idx {
+					return typ + ":reported-but-not-marked", fmt.Sprintf("post=%+v idx=%d", post, idx)
+				}
+				wantCreate := idx
+				if pre.tok.present {
+					wantCreate = pre.tok.create
+				}
+				if !post.tok.present || post.tok.content != t.sec+"/"+t.desc || post.tok.modify != idx || post.tok.create != wantCreate {
+					return typ + ":reported-but-token-not-written", fmt.Sprintf("post=%+v", post.tok)
+				}
+			}
+			return "", ""
+		}}
 }
 
 func readNode(n string) func(st *state.Store) ent {
